@@ -84,7 +84,7 @@ pub fn run(ctx: &Ctx) -> Report {
     }
 
     // 1. exhaustive: all sequences of <= L entries over 4 ranks x 2 flags, capacities 0..=8
-    let max_len = 7usize;
+    let max_len = if ctx.tier == Tier::Thorough { 8usize } else { 7usize };
     let syms = 8u64;
     let mut global = 0u64;
     'outer: for n in 0..=max_len {
@@ -106,7 +106,7 @@ pub fn run(ctx: &Ctx) -> Report {
                     (s / 2, s % 2 == 1)
                 })
                 .collect();
-            for cap in 0..=8usize {
+            for cap in 0..=(max_len + 1) {
                 rep.evaluations += 1;
                 if n > cap {
                     rep.nontrivial_enum += 1;
@@ -120,7 +120,7 @@ pub fn run(ctx: &Ctx) -> Report {
             }
         }
     }
-    rep.label_n("exhaustive_len<=7_4ranks_2flags_cap0..8", rep.evaluations);
+    rep.label_n(if max_len == 8 { "exhaustive_len<=8_4ranks_2flags_cap0..9" } else { "exhaustive_len<=7_4ranks_2flags_cap0..8" }, rep.evaluations);
 
     // 2. random large inputs through proptest (shrinks to a minimal counterexample)
     let cases = ctx.share(ctx.scale(20_000, 300_000)) as u32;
